@@ -15,7 +15,7 @@ namespace InfluxQL
 open Gen
 
 /-- The `Value` implementations of params.go. -/
-inductive Value where
+inductive ParamValue where
   | identifier (s : Str)
   | string (s : Str)
   | regex (s : Str)
@@ -27,7 +27,7 @@ inductive Value where
   deriving Repr, DecidableEq
 
 /-- `Value.TokenType()`. -/
-def Value.tokenType : Value → Token
+def ParamValue.tokenType : ParamValue → Token
   | .identifier _ => .IDENT
   | .string _ => .STRING
   | .regex _ => .REGEX
@@ -38,7 +38,7 @@ def Value.tokenType : Value → Token
   | .error _ => .BOUNDPARAM
 
 /-- `Value.Value()`. -/
-def Value.text : Value → Str
+def ParamValue.text : ParamValue → Str
   | .identifier s => s
   | .string s => s
   | .regex s => s
@@ -49,7 +49,7 @@ def Value.text : Value → Str
   | .error m => m
 
 /-- What `Parser.scan` substitutes for the placeholder. -/
-def Value.bound (v : Value) : BoundValue := { tok := v.tokenType, text := v.text }
+def ParamValue.bound (v : ParamValue) : BoundValue := { tok := v.tokenType, text := v.text }
 
 /-- Go values as `BindValue` sees them. -/
 inductive GoVal where
@@ -83,7 +83,7 @@ def convertJsonNumber : GoVal → Except Str GoVal
   | v => .ok v
 
 /-- `bindObjectValue(m)` for the single entry `k: v`. -/
-def bindObjectValue (k : Str) (v : GoVal) : Value :=
+def bindObjectValue (k : Str) (v : GoVal) : ParamValue :=
   match convertJsonNumber v with
   | .error e => .error e
   | .ok v =>
@@ -116,7 +116,7 @@ def bindObjectValue (k : Str) (v : GoVal) : Value :=
     else .error ("unknown bind object type: ".toList ++ k)
 
 /-- `BindValue(v)`. -/
-def bindValue (v : GoVal) : Value :=
+def bindValue (v : GoVal) : ParamValue :=
   match convertJsonNumber v with
   | .error e => .error e
   | .ok v =>
